@@ -484,36 +484,28 @@ def scenario(scratch, binp, rnd, nrep=1):
         sysm.close()
 
 
-def evaluate(scratch, sd, tier, seed, nrep=1):
-    """runs the scenarios and lets TLC evaluate KvassProps on the recorded worlds; returns (violations, coverage notes)"""
-    import random
-    binp = B.build(scratch)
-    rnd = random.Random(seed * 977 + 5)
-    runs, notes = [], []
-    for k in range(1 if tier == 'quick' else (4 if nrep == 1 else 2)):
-        sub = os.path.join(scratch, 'sys%d' % k)
-        rs = None
-        for attempt in range(3):
-            try:
-                rs, n = scenario(sub + ('' if attempt == 0 else '-retry%d' % attempt), binp, rnd, nrep)
-                break
-            except Exception as e:
-                # a process that does not come up, a request that times out on a loaded machine: once more, later
-                if attempt == 2:
-                    if isinstance(e, C.Inconclusive):
-                        raise
-                    raise C.Inconclusive('the process-level scenario could not be run: %r' % (e,))
-                time.sleep(20)
-        for r in rs:
-            r['id'] = 900000 + len(runs)
-            r['scenario'] = k
-            runs.append(r)
-        notes.append(n)
-    ed = os.path.join(sd, 'syseval')
+def run_scenario(scratch, name, binp, rnd, nrep):
+    for attempt in range(3):
+        try:
+            return scenario(os.path.join(scratch, name + ('' if attempt == 0 else '-retry%d' % attempt)), binp, rnd, nrep)
+        except Exception as e:
+            # a process that does not come up, a request that times out on a loaded machine: once more, later
+            if attempt == 2:
+                if isinstance(e, C.Inconclusive):
+                    raise
+                raise C.Inconclusive('the process-level scenario could not be run: %r' % (e,))
+            time.sleep(20)
+
+
+def judge(sd, name, runs, note):
+    """TLC evaluates KvassProps on the sampled worlds of one scenario; returns violation records"""
+    ed = os.path.join(sd, 'syseval-' + name)
     os.makedirs(ed)
     for f in os.listdir(sd):
         if f.endswith('.tla'):
             os.link(os.path.join(sd, f), os.path.join(ed, f))
+    for k, r in enumerate(runs):
+        r['id'] = 900000 + k
     C.write_ndjson(os.path.join(ed, 'runs.ndjson'), [dict(id=r['id'], opts=r['opts'], steps=r['steps'], quietFrom=r['quietFrom'], expectConverge=True) for r in runs])
     ev = C.tlc(ed, 'KvassEval', 'eval.cfg', cfg_text='', workers=1, timeout=1200, heap='8g')
     C.require_ok(ev, 'KvassEval (system runs)')
@@ -530,14 +522,41 @@ def evaluate(scratch, sd, tier, seed, nrep=1):
                 continue
         flagged.add(v['id'])
         viol.append(dict(sig=dict(f='system:' + v['sig']['f'], phase=r['phase']),
-                         replay=dict(scenario=notes[r['scenario']], phase=r['phase'], violation=v['sig'], final_world=r['steps'][-1]['world']),
+                         replay=dict(scenario=note, phase=r['phase'], violation=v['sig'], final_world=r['steps'][-1]['world']),
                          text='real processes, replica %d, phase %s: %s' % (r['replica'], r['phase'], json.dumps(v['sig'], sort_keys=True))))
     for r in runs:
         if not r['converged_in_time'] and r['id'] not in flagged:
             viol.append(dict(sig=dict(f='system:not-reached-in-time', phase=r['phase']),
-                             replay=dict(scenario=notes[r['scenario']], phase=r['phase'], final_world=r['steps'][-1]['world']),
-                             text='real processes, phase %s: not reached within %d s' % (r['phase'], DEADLINE)))
-    return viol, dict(system_runs=len(notes), phases=len(runs), snapshots=sum(n['snapshots'] for n in notes), proxied_scrapes=sum(sum(n['scrapes']) for n in notes), reloads_refused=sum(n['reloads_refused'] for n in notes),
+                             replay=dict(scenario=note, phase=r['phase'], final_world=r['steps'][-1]['world']),
+                             text='real processes, replica %d, phase %s: not reached in time' % (r['replica'], r['phase'])))
+    return viol
+
+
+def evaluate(scratch, sd, tier, seed, nrep=1):
+    """Runs the scenarios and lets TLC evaluate KvassProps on the recorded worlds; returns (violations, coverage notes).
+    These runs depend on real time on a machine that is shared with other runs: a scenario that shows a violation is run a
+    second time with the same choices, and only what both runs show (same formula, same phase) is reported."""
+    import random
+    binp = B.build(scratch)
+    rnd = random.Random(seed * 977 + 5)
+    viol, notes, nphases, repeated = [], [], 0, 0
+    for k in range(1 if tier == 'quick' else (4 if nrep == 1 else 2)):
+        state = rnd.getstate()
+        rs, n = run_scenario(scratch, 'sys%d' % k, binp, rnd, nrep)
+        v1 = judge(sd, 'sys%d' % k, rs, n)
+        if v1:
+            repeated += 1
+            after = rnd.getstate()
+            rnd.setstate(state)
+            rs2, n2 = run_scenario(scratch, 'sys%d-again' % k, binp, rnd, nrep)
+            rnd.setstate(after)
+            v2 = judge(sd, 'sys%d-again' % k, rs2, n2)
+            both = set((x['sig']['f'], x['sig']['phase']) for x in v2)
+            v1 = [x for x in v1 if (x['sig']['f'], x['sig']['phase']) in both]
+        viol += v1
+        notes.append(n)
+        nphases += len(rs)
+    return viol, dict(system_runs=len(notes), scenarios_run_again=repeated, phases=nphases, snapshots=sum(n['snapshots'] for n in notes), proxied_scrapes=sum(sum(n['scrapes']) for n in notes), reloads_refused=sum(n['reloads_refused'] for n in notes),
                       snapshots_with_a_transfer_pending=sum(n['snapshots_with_a_transfer_pending'] for n in notes),
                       what='real `kvass coordinator` and `kvass sidecar` processes over HTTP (static shard list, real discovery and explorer); simulated Prometheus instances '
                            'and targets; phases: start, sidecar killed and restarted on its store, coordinator killed and restarted, (with several replicas: a whole replica down while a target is added, back, target removed,) target added while every Prometheus refuses reloads for 1.5 s, target growing (relief hand-over between processes), target removed, configuration edited while every Prometheus refuses reloads')
